@@ -19,8 +19,11 @@ Enumeration (deterministic, see `bound` in the output):
            value x {argv '=', argv ' ', config string, config file} + omission; n=2: every valid shape sequence x rotating
            types x all 3^2 assignments; n=3: every valid shape sequence x rotating types x 8 named assignments; lists of 2-3
            functions, nested dicts (depth 2, with a class inside), classes with 1-3 methods (plain, static, class methods,
-           property) x 7 class plans; reserved parameter names (config / subcommand) as a separate small family.
-  thorough the same with denser type rotation, plus seeded random signatures with 4-6 parameters.
+           property) x 7 class plans, also inside a list / nested dict; classes without public methods (the instance is
+           returned) and inherited methods; a small separate family of legal signatures outside the generated grammar that
+           collide with auto_cli's own bookkeeping (parameters called config / subcommand, a constructor parameter named
+           like a method, a positional-only parameter) - each with its own tight key.
+  thorough the same with denser type rotation, plus 5000 seeded random signatures with 4-6 parameters.
 
 Command lines that are ambiguous by construction are not generated (a required positional that is not on argv followed by
 a later bare token; a bare token starting with '-' that is not a plain negative number).
@@ -347,6 +350,8 @@ def check_run(cx, kind, descr, component, argv, as_pos, exp_levels, selected_lab
     case.update(case_extra)
     base = f"c12:{kind}"
     cx.counter += 1
+    if cx.counter % 1201 == 7:
+        h.sample(case)
     if exp_levels is None:
         cx.rejected += 1
         if res[0] == "ok":
@@ -448,8 +453,12 @@ def enumerate_all(h, tmp):
                 p = P("alpha", ts, mode, kwonly)
                 fn = make_function("fn1", [p])
                 for as_pos in (True, False):
+                    if not as_pos and not p.required and not h.thorough:
+                        continue  # as_positional only concerns required parameters; the no-effect half is left to the thorough tier
                     for vi in range(len(ts.vals)):
                         for a, style, form in (("argv", "=", "str"), ("argv", " ", "str"), ("cfg", "=", "str"), ("cfg", "=", "file")):
+                            if form == "file" and vi and not h.thorough:
+                                continue  # config files differ from config strings only in how the text is obtained
                             run_function(cx, "func", fn, "fn1", [p], [a], vi, as_pos, style, form)
                     run_function(cx, "func", fn, "fn1", [p], ["omit"], 0, as_pos, "=", "str")
 
@@ -616,7 +625,7 @@ def enumerate_all(h, tmp):
     h.note(f"runs with expected acceptance: {cx.accepted}; with expected rejection: {cx.rejected}")
     if not (cx.accepted and cx.rejected):
         h.violation("b12_autocli:vacuous", "accepted or rejected inputs never occurred")
-    return (f"{N} types of G(1); 1 parameter: exhaustive over type x kind x default mode x as_positional x value x channel; 2 parameters: all shapes x "
+    return (f"{N} types of G(1); 1 parameter: exhaustive over type x kind x default mode x as_positional{'' if h.thorough else ' (required parameters only)'} x value x channel; 2 parameters: all shapes x "
             f"every {step2}th type pair rotation x all 9 assignments; 3 parameters: all 26 shapes x every {step3}th rotation x 8 assignments; "
             f"{nlists} lists, {ndicts} nested dicts (depth <= 3), {nclasses} classes with 1-3 methods (plain/static/class/property) x 7 plans, also inside "
             f"a list and a nested dict; {nclasses // 3} classes without methods and {nclasses // 3} inherited methods; reserved names config/subcommand, a constructor "
